@@ -21,6 +21,8 @@ pub uninterp spec fn pl_empty(l: PairList) -> bool;
 impl PairList {
   #[verifier::external_body]
   pub fn is_empty(&self) -> (b: bool) ensures b == pl_empty(*self), { unimplemented!() }
+  #[verifier::external_body]
+  pub fn len(&self) -> (n: usize) ensures (n == 0) == pl_empty(*self), { unimplemented!() }
 }
 
 pub enum FormulaOperator { Logic(Op), Comparison(Op), AddSub(Op), MulDiv(Op), Vec(Op), Power(Op), Table(Op), Set(Op) }
